@@ -296,6 +296,7 @@ Definition run30 (c : Z * list Z) : list Z :=
   else if op =? 1 then run_request inp
   else run_response inp.
 
-(* the same on the compact transport encoding of the cases files *)
-Definition run30s (c : Z * String.string) : list Z :=
-  run30 (fst c, NtsHex.hex_bytes (snd c)).
+(* the same on the compact transport encoding of the cases files (hex digits
+   in chunks: one very long string literal overflows the stack of coqc) *)
+Definition run30s (c : Z * list String.string) : list Z :=
+  run30 (fst c, flat_map NtsHex.hex_bytes (snd c)).
